@@ -9,6 +9,7 @@ Layers
 """
 from __future__ import annotations
 import collections, importlib, itertools, math
+import copy as _copy
 import numpy
 
 from .. import compat  # noqa: F401
@@ -42,6 +43,7 @@ CLASSES = {
 FIELDS = ("mat", "location", "scale", "taxa", "taxa_grp", "trait",
           "taxa_grp_name", "taxa_grp_stix", "taxa_grp_spix", "taxa_grp_len")
 REBUILD = ("select", "delete", "insert", "adjoin", "concat")
+NEWOBJ = REBUILD + ("copy",)               # operations that return a new object made from a live one
 INPLACE_EDIT = ("append", "remove", "incorp")
 REORDER = ("reorder", "sort", "group")
 POISON = 7777.25
@@ -238,6 +240,8 @@ def events(n, pool, labelled):
     if labelled:
         ev.append(["sort", "taxa"])
         ev.append(["group", "taxa"])
+    ev.append(["copy", "taxa", "copy"])          # obj.copy()
+    ev.append(["copy", "taxa", "copy.copy"])     # copy.copy(obj)
     return ev
 
 
@@ -250,6 +254,8 @@ def _obj(spec):
 
 
 def method_name(ev):
+    if ev[0] == "copy":
+        return "__copy__"
     return ev[0] + "_taxa" if ev[1] == "taxa" else ev[0]
 
 
@@ -274,6 +280,8 @@ def apply(cls, obj, ev, pool, used):
         used.append((pid, o))
         return o, kw
 
+    if kind == "copy":
+        return obj.copy() if ev[2] == "copy" else _copy.copy(obj)
     if kind == "select":
         return m(ev[2], **akw)
     if kind == "delete":
@@ -328,6 +336,8 @@ def model_apply(taxa, fresh, ev, pool):
         new = R.select(taxa, ev[2])
     elif kind in ("sort", "group"):
         new = R.select(taxa, R.sort_order(taxa))
+    elif kind == "copy":
+        return taxa, fresh                    # same values, same stored representation
     else:
         raise ValueError(kind)
     if kind in REBUILD:
@@ -364,6 +374,9 @@ def check_values(obj, taxa, t, sig):
 
 
 def check_standardised(ctx, obj, taxa, t, sig, exact):
+    """stored location / scale = NaN-skipping mean / population std of the raw values, unit scale for a constant
+    trait.  Whether a trait is constant is decided exactly on the model's raw values; tolerances are relative to the
+    column magnitude (no absolute floor), so a spread of 1e-12 in a tiny column must show up in the scale."""
     loc, sc = obj.location, obj.scale
     require(isinstance(loc, numpy.ndarray) and loc.shape == (t,) and isinstance(sc, numpy.ndarray) and sc.shape == (t,),
             sig + ":location-scale-shape", lambda: f"location {loc!r} scale {sc!r}")
@@ -371,10 +384,10 @@ def check_standardised(ctx, obj, taxa, t, sig, exact):
         cs = R.column_summary(taxa, c)
         if cs["all_nan"]:
             continue
-        tol = R.tol_col(taxa, c)
+        tol = R.tol_ls(taxa, c)
         l, s = float(loc[c]), float(sc[c])
         require(abs(l - cs["mean"]) <= tol, sig + ":location",
-                lambda: f"trait {c}: stored location {l!r}, mean of the raw values {cs['mean']!r}; raw={R.raw_rows(taxa)}")
+                lambda: f"trait {c}: stored location {l!r}, mean of the raw values {cs['mean']!r} (tol {tol:.3g}); raw={R.raw_rows(taxa)}")
         if cs["constant"]:
             degenerate = (not exact) and 0.0 < s <= tol
             if degenerate:
@@ -382,8 +395,13 @@ def check_standardised(ctx, obj, taxa, t, sig, exact):
             require(s == 1.0 or degenerate, sig + ":scale:constant-trait-not-unit",
                     lambda: f"trait {c} is constant but stored scale is {s!r} (expected 1); raw={R.raw_rows(taxa)}")
         else:
-            require(abs(s - cs["std"]) <= tol, sig + ":scale",
-                    lambda: f"trait {c}: stored scale {s!r}, standard deviation of the raw values {cs['std']!r}; raw={R.raw_rows(taxa)}")
+            collapsed = (not exact) and R.numerically_constant(cs, taxa, c) and s == 1.0
+            if collapsed:
+                ctx.flag("rounding-collapsed-spread")     # spread below the rounding level of the column's history
+            else:
+                ctx.count("scale-checked:tiny-spread" if cs["std"] < 1e-8 else "scale-checked:ordinary")
+            require(collapsed or abs(s - cs["std"]) <= tol, sig + ":scale",
+                    lambda: f"trait {c}: stored scale {s!r}, standard deviation of the raw values {cs['std']!r} (tol {tol:.3g}); raw={R.raw_rows(taxa)}")
 
 
 def _fcol(col):
@@ -417,6 +435,7 @@ def check_summaries(ctx, cls, obj, taxa, fresh, built, t, case):
     n = len(taxa)
     cols = [R.column_summary(taxa, c) for c in range(t)]
     stored = [_fcol([float(obj.mat[i, c]) for i in range(n)]) for c in range(t)]
+    stored_mag = [max([0.0] + [abs(float(obj.mat[i, c])) for i in range(n) if not math.isnan(float(obj.mat[i, c]))]) for c in range(t)]
     pre = (obj.mat.copy(), obj.location.copy(), obj.scale.copy())
     observed = []
 
@@ -439,10 +458,10 @@ def check_summaries(ctx, cls, obj, taxa, fresh, built, t, case):
                 for c in range(t):
                     x = float(r[c])
                     if u:
-                        acc, tol = cols[c][fn], R.summary_tol(fn, taxa, c)
+                        acc, tol = cols[c][fn], R.summary_tol(fn, taxa, c, cols[c])
                     else:
                         acc = stored[c][0][fn]
-                        tol = 1e-12 * max(1.0, max(abs(e) for e in acc if not math.isnan(e)) if any(not math.isnan(e) for e in acc) else 1.0)
+                        tol = 1e-12 * stored_mag[c] * (stored_mag[c] if fn == "tvar" else 1.0)
                     if any(_match(x, e, tol) for e in acc):
                         ctx.count("summary-on-nan-column" if cols[c]["has_nan"] else "summary-on-complete-column")
                         continue
@@ -450,7 +469,7 @@ def check_summaries(ctx, cls, obj, taxa, fresh, built, t, case):
                         kind = "mismatch-stored"
                     elif not fresh:
                         kind = "stale-after-inplace-edit"
-                    elif cols[c]["constant"] and fn in ("tstd", "tvar") and x == 1.0:
+                    elif R.numerically_constant(cols[c], taxa, c) and fn in ("tstd", "tvar") and x == 1.0:
                         kind = "constant-trait:reports-unit-scale"
                     else:
                         kind = "mismatch:after:" + built
@@ -481,7 +500,12 @@ def check_summaries(ctx, cls, obj, taxa, fresh, built, t, case):
         try:
             require(isinstance(r, numpy.ndarray) and r.shape == (t,) and r.dtype.kind in "iu", q + ":shape", lambda: f"returned {r!r}")
             for c in range(t):
-                acc = cols[c][fn]
+                acc = set(cols[c][fn])
+                # values closer to the extreme than the rounding level of the column's history count as ties
+                pres = [(i, float(tx[2][c])) for i, tx in enumerate(taxa) if tx[2][c] is not None]
+                if pres:
+                    ext = max(v for _, v in pres) if fn == "targmax" else min(v for _, v in pres)
+                    acc |= {i for i, v in pres if abs(v - ext) <= 2 * R.tol_col(taxa, c)}
                 require(int(r[c]) in acc, f"{q}:{'mismatch:after:' + built if fresh else 'stale-after-inplace-edit'}",
                         lambda: f"trait {c}: {fn}() = {int(r[c])}, raw values {[row[c] for row in R.raw_rows(taxa)]} have it at {sorted(acc)}")
         except Violation as v:
@@ -527,11 +551,12 @@ def coverage_flags(ctx, taxa, t):
 
 # ----------------------------------------------------------------------------
 # L0: complete input enumeration
-def run_L0(ctx, clskey, n, t, prefix, stride=1, offset=0):
+def run_L0(ctx, clskey, n, t, prefix, stride=1, offset=0, alpha="main"):
     cls = cls_of(clskey)
     seed = ctx.seed
     rest = n * t - len(prefix)
-    for ci, tail in enumerate(itertools.product(SYMS, repeat=rest)):
+    ctx.flag(f"L0-alphabet:{alpha}")
+    for ci, tail in enumerate(itertools.product(SYMS if alpha == "main" else R.TSYMS, repeat=rest)):
         if ci % stride != offset:
             continue
         cells = tuple(prefix) + tail
@@ -571,7 +596,29 @@ def L0_case(ctx, clskey, cls, rows, labelled):
 
 # ----------------------------------------------------------------------------
 # H: BFS over histories
-def step(ctx, cls, clskey, psnap, taxa, fresh, built, ev, pool, t, case, full):
+def inplace_followups(cls, res, pool, labelled):
+    """Every in-place taxa operation the library offers, applied to an object that an operation has just returned.
+    (What they do to `res` is judged by their own transitions; here only the SOURCE object is looked at afterwards.)"""
+    n = res.ntaxa
+
+    def p0():
+        return pool.fresh("p0")[0]
+    for f in ((lambda: res.reorder_taxa(numpy.arange(n)[::-1].copy())),
+              (lambda: res.sort_taxa()) if labelled else None,
+              (lambda: res.group_taxa()) if labelled else None,
+              (lambda: res.append_taxa(p0())),
+              (lambda: res.incorp_taxa(0, p0())),
+              (lambda: res.remove_taxa(0)),
+              (lambda: res.ungroup_taxa())):
+        if f is None:
+            continue
+        try:
+            f()
+        except Exception:  # noqa: BLE001
+            pass
+
+
+def step(ctx, cls, clskey, psnap, taxa, fresh, built, ev, pool, t, case, full, followups=False):
     """Apply one event to a fresh copy of the parent state.  Returns a dict: status 'exception' (no result),
     'pruned' (result exists but its raw values / standardisation are broken: successor not expanded) or 'ok';
     'snap' = snapshot of the resulting real object (None after an exception)."""
@@ -597,7 +644,7 @@ def step(ctx, cls, clskey, psnap, taxa, fresh, built, ev, pool, t, case, full):
     rs = snap(res)
     ntaxa, nfresh = model_apply(taxa, fresh, ev, pool)
     nbuilt = sig if kind in REBUILD else built
-    if kind in REBUILD:
+    if kind in NEWOBJ:
         f = snap_same(snap(obj), psnap)
         if f is not None:
             ctx.violation(sig + ":mutates-self", f"copy-on-manipulation operation changed field {f} of the matrix it was called on", case)
@@ -619,6 +666,19 @@ def step(ctx, cls, clskey, psnap, taxa, fresh, built, ev, pool, t, case, full):
     changed = snap_same(rs, psnap) is not None
     if changed:
         ctx.flag(f"changes:{kind}")
+    if kind == "copy" and changed:
+        ctx.violation(sig + ":copy-differs", f"field {snap_same(rs, psnap)} of the copy differs from the source", case)
+    if kind in NEWOBJ and (followups or kind == "copy"):
+        # the new object must be independent of the live source: whatever in-place operation is applied to the
+        # result, the source keeps its full state and still unscales to its raw values
+        inplace_followups(cls, res, pool, pool.labelled)
+        ctx.count("independence-checks")
+        f = snap_same(snap(obj), psnap)
+        if f is not None:
+            ctx.violation(sig + ":result-shares-state-with-source",
+                          f"in-place operations on the returned object changed field {f} of the source object", case)
+        else:
+            ctx.guard(lambda: check_values(obj, taxa, t, sig + ":source-after-inplace-ops-on-result"), case=case, sig_prefix=sig + ":")
     if nviol(ctx) == before:
         ctx.traces += 1
     return dict(status="ok", snap=rs, taxa=ntaxa, fresh=nfresh, built=nbuilt, changed=changed)
@@ -692,9 +752,9 @@ def run_H(ctx, clskey, labelled, rows_sym, depth, part, nparts):
             if d == 0 and k % nparts != part:
                 continue
             case = dict(base, history=list(hist) + [ev])
-            out = step(ctx, cls, clskey, ps, taxa, fresh, built, ev, pool, t, case, full=False)
+            out = step(ctx, cls, clskey, ps, taxa, fresh, built, ev, pool, t, case, full=False, followups=(d == 0))
             _flag_event(ctx, ev, pool)
-            if d == 0:
+            if d == 0 and ev[0] != "copy":
                 for form in ("ax0", "axm2"):
                     generic_variant(ctx, cls, clskey, ps, ev, form, pool, dict(base, history=[[ev[0], form] + list(ev[2:])]), out)
             if out["status"] != "ok":
@@ -742,6 +802,7 @@ INIT_T2 = [
     [["b", "N"]],                                           # n=1, all-NaN column
     [["L", "a"]],                                           # n=1
     [["a", "z"], ["z", "z"], ["b", "N"], ["L", "b"]],       # n=4
+    [["e", "H"], ["f", "G"], ["z", "H"]],                   # tiny spread | offset + tiny pair (std < 1e-9, not constant)
 ]
 INIT_T1 = [
     [["a"], ["z"], ["b"]],
@@ -749,6 +810,7 @@ INIT_T1 = [
     [["N"], ["z"], ["N"]],
     [["L"], ["a"]],
     [["z"]],
+    [["e"], ["z"]],                                          # tiny spread, n=2
 ]
 
 
@@ -776,25 +838,45 @@ def shards(tier, seed):
         for n in (1, 2, 3, 4):
             cells = n * t
             if cells <= 5:
-                out.append(("L0", "BV", n, t, (), 1, 0))
+                out.append(("L0", "BV", n, t, (), 1, 0, "main"))
             elif cells == 6:
                 for s in SYMS:
-                    out.append(("L0", "BV", n, t, (s,), 1, 0))
+                    out.append(("L0", "BV", n, t, (s,), 1, 0, "main"))
             elif T:
                 for p in itertools.product(SYMS, repeat=3):
-                    out.append(("L0", "BV", n, t, p, 1, 0))
+                    out.append(("L0", "BV", n, t, p, 1, 0, "main"))
             else:
                 # quick: n=4,t=2 is covered for every column pattern of trait 0 x a stride of the rest
                 for p in itertools.product(SYMS, repeat=2):
-                    out.append(("L0", "BV", n, t, p, 25, (SYMS.index(p[0]) * 5 + SYMS.index(p[1])) % 25))
+                    out.append(("L0", "BV", n, t, p, 25, (SYMS.index(p[0]) * 5 + SYMS.index(p[1])) % 25, "main"))
     for key in ("EBV", "GEBV"):
         for t in (1, 2):
             for n in ((1, 2, 3) if T else (1, 2)):
                 if n * t <= 4:
-                    out.append(("L0", key, n, t, (), 1, 0))
+                    out.append(("L0", key, n, t, (), 1, 0, "main"))
                 else:
                     for s in SYMS:
-                        out.append(("L0", key, n, t, (s,), 1, 0))
+                        out.append(("L0", key, n, t, (s,), 1, 0, "main"))
+    # L0, second alphabet (tiny magnitudes, offset + tiny pair): 6 symbols
+    TS = R.TSYMS
+    for t in (1, 2):
+        for n in (1, 2, 3, 4):
+            cells = n * t
+            if cells <= 4:
+                out.append(("L0", "BV", n, t, (), 1, 0, "tiny"))
+            elif cells == 6:
+                for p in itertools.product(TS, repeat=2):
+                    out.append(("L0", "BV", n, t, p, 1, 0, "tiny"))
+            elif T:
+                for p in itertools.product(TS, repeat=3):
+                    out.append(("L0", "BV", n, t, p, 1, 0, "tiny"))
+            else:
+                for p in itertools.product(TS, repeat=2):
+                    out.append(("L0", "BV", n, t, p, 36, (TS.index(p[0]) * 6 + TS.index(p[1])) % 36, "tiny"))
+    for key in ("EBV", "GEBV"):
+        for t in (1, 2):
+            for n in (1, 2):
+                out.append(("L0", key, n, t, (), 1, 0, "tiny"))
     # H --------------------------------------------------------------
     depth = 3 if T else 2
     for clskey, labelled, rows in h_inits(tier):
@@ -804,17 +886,17 @@ def shards(tier, seed):
     # S --------------------------------------------------------------
     out += DSM.shards(tier, seed)
     # long shards first (load balance on the fork pool); the order has no influence on what is explored
-    order = {"H": 0, "S2": 1, "S1": 2, "L0": 3}
+    order = {"H": 0, "S2": 1, "S1": 2, "S1T": 2, "L0": 3}
     return sorted(out, key=lambda sp: order[sp[0]])
 
 
 def run_shard(spec, ctx):
     ctx.bounds.update({"n_taxa_max": NMAX, "n_trait_max": 2, "value_alphabet": list(alphabet(ctx.seed)) + ["NaN"],
-                       "history_depth": 3 if ctx.tier == "thorough" else 2, "tolerance_rel_to_column_magnitude": R.TOL,
+                       "history_depth": 3 if ctx.tier == "thorough" else 2, "tolerance_rel_to_column_magnitude": R.TOL, "tiny_alphabet": list(R.tiny_alphabet(ctx.seed)) + [0.0, "NaN"],
                        "L0_n4_t2": "complete" if ctx.tier == "thorough" else "1/25 stride per trait-0 prefix"})
     if spec[0] == "L0":
-        _, clskey, n, t, prefix, stride, offset = spec
-        run_L0(ctx, clskey, n, t, prefix, stride, offset)
+        _, clskey, n, t, prefix, stride, offset, alpha = spec
+        run_L0(ctx, clskey, n, t, prefix, stride, offset, alpha)
     elif spec[0] == "H":
         _, clskey, labelled, rows, depth, part, nparts = spec
         run_H(ctx, clskey, labelled, rows, depth, part, nparts)
@@ -843,6 +925,13 @@ def finalize(ctx, tier, seed):
     for fn in R.ARG_FNS:
         assert c.get(f"cmp:{fn}", 0) > 0, fn
     assert c.get("summary-on-complete-column", 0) > 1000 and c.get("summary-on-nan-column", 0) > 100
+    # non-constant traits with a spread far below 1e-8 had their stored scale compared (relative to the column
+    # magnitude) with the exact standard deviation; copies / new objects were exercised for independence
+    assert "L0-alphabet:tiny" in f and "L0-alphabet:main" in f
+    assert c.get("scale-checked:tiny-spread", 0) > 1000 and c.get("scale-checked:ordinary", 0) > 1000
+    assert c.get("independence-checks", 0) > 100
+    for key in CLASSES:
+        assert c.get(f"op:{key}:__copy__", 0) > 0, key
     assert len(ctx.outcomes) > 500, len(ctx.outcomes)
     assert len(ctx.states) > 1000, len(ctx.states)
     DSM.finalize(ctx, tier, seed)
@@ -870,7 +959,7 @@ def replay_H(ctx, case):
         hist.append(ev)
         c = dict(base, history=list(hist))
         spec_ev = [ev[0], "taxa"] + list(ev[2:])
-        out = step(ctx, cls, clskey, ps, taxa, fresh, built, spec_ev, pool, t, c, full=True)
+        out = step(ctx, cls, clskey, ps, taxa, fresh, built, spec_ev, pool, t, c, full=True, followups=True)
         if ev[1] != "taxa":
             generic_variant(ctx, cls, clskey, ps, spec_ev, ev[1], pool, c, out)
         if out["status"] != "ok":
